@@ -444,6 +444,15 @@ class Check:
         if not ok:
             # distinguish regenerated-facts failures (a proof obligation broke) from my own bugs
             gen_related = any(re.search(r"OW[/.]Gen", l) for l in out.splitlines() if "error" in l)
+            if not gen_related:
+                # A theorem OUTSIDE OW/Gen that is evaluated on regenerated data (e.g. `catalogue_only_specs : onlySpecs specs descs = true := by decide`)
+                # fails in its own file. On the unchanged tree every module builds (setup and every run), and between trees only the regenerated
+                # files differ: if they differ from the committed ones now, the failure is a broken obligation of the tree under test.
+                try:
+                    d = subprocess.run(["git", "-C", VERIF, "diff", "--quiet", "--", "lean/OW/Gen"], stdout=subprocess.PIPE, stderr=subprocess.PIPE)
+                    gen_related = d.returncode == 1
+                except Exception:
+                    pass
             if not gen_related or not os.path.exists(DRIVER):
                 raise Internal("lake build failed:\n" + out[-4000:])
             problems.append({"kind": "proof-obligation", "name": "lake build " + " ".join(self.props_modules),
